@@ -362,6 +362,8 @@ def replay_line(rec):
     cont = bool(cfg.get("cont"))
     lo, hi = cfg["min_h"], cfg["max_h"]
     ev = rec.get("evals", [])
+    if any(not math.isfinite(e["excess"]) for e in ev):
+        return None      # a NaN/inf excess (degenerate hybrid load, known finding of C06/C07) cannot go over the wire
     if kind in ("NEARSQUARE", "RECTANGLE"):
         counts = rec["counts"]
         n = len(counts)
